@@ -24,7 +24,7 @@ CFG = dict(
              "operations without a Lean model, covered ONLY by the WF oracle on every mesh they return (called on generated WF meshes of all topologies): SliceByPlaneWithAttribute / "
              "SliceByPlaneTransformer, ColorGradingLut, VertexColorSpace, SmoothNormalsImplicitWeld (finite positions only), LaplacianSmoothAlongAxis, ScaleAttributeAlongNormal "
              "(+Transformer), ScaleAttribute2D, NormalizeAttribute2D",
-             "triangulation.BowyerWatson: bowyerWatson_wf is about the C20 model Model/Delaunay.lean (every enumeration order of the triangle map), tied to Go by the C20 correspondence and here by the WF oracle; "
+             "triangulation.BowyerWatson: bowyerWatson_wf is about the C20 model Model/Delaunay.lean (any selection / order of the final triangulation's triangles; it reflects the final filter + n vertices, not the insertion algorithm), tied to Go by the C20 correspondence and here by the WF oracle; "
              "triangulation.ConstrainedBowyerWatson: constrainedBowyerWatson_wf is about an abstract model of the clipping events (Model/ConstrainedBW.lean; geometry is a parameter), "
              "tied by the structural oracle cbw_shape and the WF oracle only; WF oracle only (no theorem): node wrappers (Process) of primitives / meshops / repeat / extrude without input, "
              "simplify.QuadricDecimation, pipeline.Pipeline{}.Run, animation.WeightMeshWithHeatDiffusion, formats/colmap and opensfm point-cloud constructors; file readers are other "
@@ -54,7 +54,7 @@ CFG = dict(
              "list) comparison of every modelled generator with the Go constructor on sweeps from parameter 0 upward (exhaustive <= 24, non-square samples up to 512; invalid "
              "parameters must be rejected on both sides); op sequences compared with the model (shape); the WF predicate evaluated on EVERY mesh the implementation returns, "
              "including un-modelled operations (slice by plane, colour LUT/space, implicit-weld normals, axis Laplacian, scale along normal, 2-D scale/normalise) and un-modelled "
-             "generators (Bowyer-Watson, constrained Bowyer-Watson with clipping constraints, repeat, marching).",
+             "generators / wrappers (node Process wrappers, simplify, pipeline, animation, colmap/opensfm constructors). Abstract-model theorems tied by oracles only: marching block allocation, Bowyer-Watson (bowyerWatson_wf from the C20 model: any selection and order of the final triangulation's triangles; reflects the final filter + n vertices, not the insertion algorithm), constrained Bowyer-Watson (clipping events).",
         note="Trusted: Lean kernel + 3 axioms; harness. Not theorems (WF oracle on implementation output only): the un-modelled operations and generators listed above; bowyerWatson_wf is about the C20 model Model/Delaunay.lean (tied to Go by C20's correspondence); the "
              "marching theorems are about an abstract LookupOrAdd allocation tied to canvas.go by the oracle; generator theorems are about the Lean generators, linked to Go by the "
              "sweeps. Raw setters outside their guards are not claimed. SplitOnUniqueMaterials panics (index out of range) on material ranges shorter than the triangle list: "
